@@ -16,7 +16,7 @@ import pickle
 from mc import core, seams
 
 PROP = 'C16'
-TECH = 'explicit-state BFS (state = event history, world rebuilt per transition, merged on a canonical key) over real lock manager replicas and client wrappers on an abstract ordered log, with time steps, replica lag, submission failures and prolongation iterations as events'
+TECH = 'explicit-state BFS over real SyncObj clusters carrying the replicated lock table (replica equality, also after a snapshot install) + explicit-state BFS (state = event history, world rebuilt per transition, merged on a canonical key) over real lock manager replicas and client wrappers on an abstract ordered log, with time steps, replica lag, submission failures and prolongation iterations as events'
 ASSUME = ['assume/guarantee: one common command sequence and the callback contract are provided by C01/C02 (abstract ordered log)',
           'client clocks agree (one common virtual clock), as the property states',
           'sync tryAcquire is driven through its callback form (a blocked OS thread is not modelled here)']
@@ -106,7 +106,9 @@ class StubSyncObj(object):
 
 
 class LockModel(object):
-    def __init__(self, clients=2, locks=('L',), depth=8, faults=1, prolongs=2, timesteps=3, prefix=()):
+    def __init__(self, clients=2, locks=('L',), depth=8, faults=1, prolongs=2, timesteps=3, prefix=(), dts=None, releases=True):
+        self.dts = tuple(dts) if dts else DTS      # time steps offered after the prefix
+        self.releases = releases                    # offer release events
         self.nc = clients
         self.locks = locks
         self.depth = depth
@@ -241,7 +243,8 @@ class LockModel(object):
         for c in range(self.nc):
             for lk in self.locks:
                 evs.append(('acq', c, lk))
-                evs.append(('rel', c, lk))
+                if self.releases:
+                    evs.append(('rel', c, lk))
             if w.nprolong < self.prolongs:
                 evs.append(('prolong', c))
         for r in range(self.nc):
@@ -252,7 +255,7 @@ class LockModel(object):
                 if not w.log[i]['failed'] and all(a <= i for a in w.applied):
                     evs.append(('fail', i))
         if w.ntime < self.timesteps:
-            for dt in DTS:
+            for dt in self.dts:
                 evs.append(('time', dt))
         return evs
 
@@ -272,7 +275,12 @@ class LockModel(object):
         import pysyncobj.batteries as B
         B.time = w.time
         for lk in self.locks:
-            owners = [c for c in range(self.nc) if w.mgrs[c].isAcquired(lk)]
+            # a client that has asked to release the lock no longer relies on it, even while its own replica has not applied
+            # the release yet
+            def releasing(c):
+                return any(e['origin'] == c and e['name'].startswith('release') and e['args'][0] == lk and not e['failed']
+                           for e in w.log[w.applied[c]:])
+            owners = [c for c in range(self.nc) if w.mgrs[c].isAcquired(lk) and not releasing(c)]
             if len(owners) > 1:
                 return core.Violation('C16 clients %r both consider lock %r held by themselves at the same instant (history %r)' % (
                     owners, lk, list(hist)), sig='two-holders')
@@ -410,6 +418,9 @@ def jobs_for(tier):
         ('locks:c2:f0p0t3', dict(clients=2, depth=d + 1, faults=0, prolongs=0, timesteps=3)),
         ('locks:c2:f1p0t1', dict(clients=2, depth=d + 1, faults=1, prolongs=0, timesteps=1)),
         ('locks:c1:f0p1t3', dict(clients=1, depth=d + 2, faults=0, prolongs=1, timesteps=3)),
+        # client 0 has held L for three quarters of the auto-unlock time (both replicas applied it): what happens around the deadline
+        ('locks:c2:held6s:f0p1t1', dict(clients=2, depth=12, faults=0, prolongs=1, timesteps=3, dts=(DTS[1],) if q else None,
+                                        releases=not q, prefix=(('acq', 0, 'L'), ('apply', 0), ('apply', 1), ('time', DTS[2]), ('time', DTS[1])))),
         ('locks:c3:f0p1t1', dict(clients=3, depth=d - 1 if q else d, faults=0, prolongs=1, timesteps=1)),
         ('locks:c2:2locks:f0p1t1', dict(clients=2, locks=('L', 'M'), depth=d - 1 if q else d, faults=0, prolongs=1, timesteps=1)),
     ]
@@ -417,6 +428,9 @@ def jobs_for(tier):
         # thorough: one job per first event (the searches share nothing but the empty history), so that all cores work
         out = []
         for n, kw in js:
+            if kw.get('prefix'):
+                out.append((n, kw))
+                continue
             firsts = LockModel(**kw).events(())
             for ev in firsts:
                 if ev[0] in ('acq', 'rel', 'prolong') and ev[1] != 0:
@@ -433,10 +447,36 @@ def replay_trace(jobname, trace):
     return msg
 
 
+def cluster_specs(tier):
+    """The replicated lock table through a real cluster (engine E1): replicas that have applied the same entries hold
+    the same table, also a replica that received it in a snapshot."""
+    from mc.jobs import J
+    BM = ('mc.monitors', 'BatteryMonitor', {})
+    js = [J('locktable:lagsnap3:S1H2R1', 'battery_lagsnap', dict(n=3, consumers='lock'), dict(S=1, H=2, R=1), dict(ops=(0, 3, 4))),
+          J('locktable:lagsnap-released3:H2R1', 'battery_lagsnap', dict(n=3, consumers='lock'), dict(H=2, R=1), dict(pre=(0,), ops=(2, 2, 2))),
+          J('locktable:steady2:S2H1', 'steady', dict(n=2, consumers='lock'), dict(S=2, H=1), dict(k=0))]
+    for j in js:
+        j['max_states'] = 150000 if tier == 'quick' else 1500000
+        j['clauses'] = ('C02',)
+        j['extra_monitors'] = (BM,)
+        j['prop'] = PROP
+    return js
+
+
+def replay_any(jobname, trace):
+    if jobname.startswith('locktable'):
+        from mc import jobs as _jobs
+        table = {s['name']: s for t in ('quick', 'thorough') for s in cluster_specs(t)}
+        return _jobs.replay_cluster(table[jobname], trace)
+    return replay_trace(jobname, trace)
+
+
 def main(tier, seed, job_filter=None):
+    from mc import jobs as _jobs
     rep = core.Report(PROP, tier, seed, TECH, ASSUME)
     js = [(job, dict(name=n, **kw)) for n, kw in jobs_for(tier) if not job_filter or job_filter in n]
-    rep.replay_fn = replay_trace
+    js += [(_jobs.cluster_job, dict(s, order_seed=seed)) for s in cluster_specs(tier) if not job_filter or job_filter in s['name']]
+    rep.replay_fn = replay_any
     rep.add(core.run_jobs(js))
     return rep.finish()
 
@@ -444,7 +484,7 @@ def main(tier, seed, job_filter=None):
 def replay_file(path):
     import json
     d = json.load(open(path))
-    msg = replay_trace(d['job'], d['trace'])
+    msg = replay_any(d['job'], d['trace'])
     print('replay:', msg)
     if msg:
         print('VIOLATION property=%s replay=%s' % (PROP, path))
